@@ -198,6 +198,12 @@ func TestC17(t *testing.T) {
 				t.Fatalf("monitor: %v", err)
 			}
 			kit.Label("C17", "column-selecting-bystander")
+			// half of the bystanders leave at once: the server keeps their monitors (it never
+			// removes them) and fails to notify them from then on - the others must not suffer
+			if rapid.Bool().Draw(t, "narrowleaves") {
+				rp.Close()
+				kit.Label("C17", "bystander-gone-before-the-transactions")
+			}
 		}
 		for i := 0; i < npeers; i++ {
 			rp, err := kit.DialRaw(srv.Sock)
